@@ -121,7 +121,11 @@ func (c09) Gen(tier string, seed int64, emit func([]Ev)) {
 				case 0:
 					e["field"], e["arg"] = "seg.eid", eid4(rndEid(r))
 				case 1:
-					e["field"], e["arg"] = "seg.type", segTypes[r.Intn(len(segTypes))]
+					t := segTypes[r.Intn(len(segTypes))]
+					if r.Intn(3) == 0 {
+						t = []int{0x34, 0x36}[r.Intn(2)] // the two types that keep sub-segment fields
+					}
+					e["field"], e["arg"] = "seg.type", t
 				case 2:
 					e["field"], e["arg"] = "seg.cancel", r.Intn(4) == 0
 				case 3:
